@@ -55,7 +55,7 @@ Require Import WD.Model.Fs WD.Model.Reader WD.Model.Contract.
 Require Import WD.Gen.MaskTableGen WD.Proofs.MaskTableProofs WD.Proofs.C11Proofs WD.Proofs.ContractProofs.
 Require Import WD.Proofs.C11KernelProofs WD.Proofs.C11ReaderProofs WD.Proofs.C11TwinProofs WD.Proofs.C11GroupProofs
                WD.Proofs.C11SeqProofs.
-Require Import WD.Model.Pipeline WD.Proofs.C11TieProofs WD.Proofs.C11FlatProofs WD.Proofs.C11StutterProofs.
+Require Import WD.Model.Pipeline WD.Proofs.C11TieProofs WD.Proofs.C11FlatProofs WD.Proofs.C11StutterProofs WD.Proofs.C11InertProofs.
 
 (* The full property.  [events F full recursive h] = the events delivered to the handler of a watch
    with event filter F (None = no filter) over the operation history h; [paced] = the pacing condition
@@ -205,6 +205,44 @@ Theorem C11_reader_transparent : forall C t (keep : N -> bool),
     = Done (r', k', filter (fun x => keep (r_mask x)) out).
 Proof. exact reader_transparent. Qed.
 Print Assumptions C11_reader_transparent.
+
+(* THE READER-LEVEL LAG LEMMA (repaired reader).  WHEN a remembered move-out candidate is settled does not matter, and records
+   that cannot produce anything may be removed from a batch.
+   [settle_now] = what the head of the next iteration will do to a remembered candidate; [E2] = the two states have the same
+   settled form (same tables after settling, same watches and counters); [inv] = the two runs are aligned (same reader state)
+   or skewed (same settled form; nothing ahead matches a candidate still remembered), and every [dead] descriptor is gone for
+   good ([gone]: below the counter, no kernel watch, in no table).  [sel] removes records whose descriptor is dead, or that
+   are plain and not kept; [shapeP]: the second half of a directory rename comes right after the first half or not at all.
+   Then the run over the shorter batch ends with the same settled form and outputs the kept part - whichever of the two
+   runs settles first.  No guard (cf. C11_reader_transparent). *)
+Theorem C11_inert : forall C keep sel dead,
+  (c_recursive C = true -> keep IN_CREATE = true /\ keep (N.lor IN_CREATE IN_ISDIR) = true) ->
+  forall t b r1 k1 r2 k2 acc r1' k1' out,
+    (forall e, In e b -> sel e = false ->
+               dead (k_wd e) = true \/ (structural (c_recursive C) (k_mask e) = false /\ keep (k_mask e) = false)) ->
+    (forall e, In e b -> sel e = true -> keep (k_mask e) = true) ->
+    shapeP C b -> inv C dead b r1 k1 r2 k2 ->
+    read_batch C t (r1, k1, acc) b = Done (r1', k1', out) ->
+    exists r2' k2',
+      read_batch C t (r2, k2, filter (fun x => keep (r_mask x)) acc) (filter sel b)
+      = Done (r2', k2', filter (fun x => keep (r_mask x)) out) /\
+      E2 C r1' k1' r2' k2'.
+Proof. exact inert. Qed.
+Print Assumptions C11_inert.
+
+(* ... and back: with the repair (unknown descriptors are skipped) the longer batch is read without a crash whenever the
+   shorter one is *)
+Theorem C11_inert_back : forall C keep sel dead,
+  (c_recursive C = true -> keep IN_CREATE = true /\ keep (N.lor IN_CREATE IN_ISDIR) = true) ->
+  forall t, c_fix_moveout C = true -> forall b r1 k1 r2 k2 acc r2' k2' out2,
+    (forall e, In e b -> sel e = false ->
+               dead (k_wd e) = true \/ (structural (c_recursive C) (k_mask e) = false /\ keep (k_mask e) = false)) ->
+    (forall e, In e b -> sel e = true -> keep (k_mask e) = true) ->
+    shapeP C b -> inv C dead b r1 k1 r2 k2 ->
+    read_batch C t (r2, k2, filter (fun x => keep (r_mask x)) acc) (filter sel b) = Done (r2', k2', out2) ->
+    exists r1' k1' out, read_batch C t (r1, k1, acc) b = Done (r1', k1', out).
+Proof. exact inert_back. Qed.
+Print Assumptions C11_inert_back.
 
 Theorem C11_reader_transparent_pinned : forall C, c_fix_moveout C = false -> forall keep b, guardedb C keep false b = true.
 Proof. exact guarded_pinned. Qed.
